@@ -227,7 +227,14 @@ impl SignalConfig {
     );
     match (self.theta_deg, self.theta_external_deg) {
       (Some(theta), None) => beam.set_angles(phi, theta * DEG),
-      (None, Some(theta_e)) => beam.set_theta_external(theta_e * DEG, crystal_setup),
+      (None, Some(theta_e)) => {
+        if !(theta_e.abs() < 90.) {
+          return Err(SPDCError(
+            "theta_external_deg must be between -90 and 90 degrees".into(),
+          ));
+        }
+        beam.set_theta_external(theta_e * DEG, crystal_setup)
+      }
       _ => {
         return Err(SPDCError(
           "Must specify one of theta_deg or theta_external_deg".into(),
@@ -272,7 +279,14 @@ impl IdlerConfig {
     );
     match (self.theta_deg, self.theta_external_deg) {
       (Some(theta), None) => beam.set_angles(phi, theta * DEG),
-      (None, Some(theta_e)) => beam.set_theta_external(theta_e * DEG, crystal_setup),
+      (None, Some(theta_e)) => {
+        if !(theta_e.abs() < 90.) {
+          return Err(SPDCError(
+            "theta_external_deg must be between -90 and 90 degrees".into(),
+          ));
+        }
+        beam.set_theta_external(theta_e * DEG, crystal_setup)
+      }
       _ => {
         return Err(SPDCError(
           "Must specify one of theta_deg or theta_external_deg".into(),
@@ -335,6 +349,10 @@ impl SPDCConfig {
 
     if crystal_theta_autocalc {
       if periodic_poling == PeriodicPoling::Off {
+        // the optimum keeps the signal's external angle: it has to exist
+        if !(signal.theta_external(&crystal_setup) / RAD).is_finite() {
+          return Err(SPDCError("Can not autocalc theta for a signal beyond total internal reflection. Provide an explicit value for crystal theta.".into()));
+        }
         crystal_setup.assign_optimum_theta(&signal, &pump);
       } else {
         return Err(SPDCError("Can not autocalc theta when periodic poling is enabled. Provide an explicit value for crystal theta.".into()));
